@@ -146,3 +146,77 @@ def purge_depth(repo: Repo):
     if "self.name" in txt:
         return 0, "purge removes only the indicator's own name", pg
     return 0, "purge name set not understood", pg
+
+
+def _is_raw_copy_comp(node, source_txt: str) -> bool:
+    """[c.raw_copy() for c in <source>] / generator of the same"""
+    if isinstance(node, (ast.ListComp, ast.GeneratorExp)) and len(node.generators) == 1 and not node.generators[0].ifs:
+        g = node.generators[0]
+        elt = node.elt
+        return (
+            isinstance(elt, ast.Call)
+            and isinstance(elt.func, ast.Attribute)
+            and elt.func.attr == "raw_copy"
+            and not elt.args
+            and ast.unparse(elt.func.value) == ast.unparse(g.target)
+            and ast.unparse(g.iter).replace(" ", "") == source_txt.replace(" ", "")
+        )
+    return False
+
+
+def check_raw_copies(prop: str, res: Result, repo: Repo, want=("method", "append", "validate")):
+    """R-ALIAS: Candle objects reach a non-default candle manager only as fresh *raw* copies (Candle.raw_copy):
+    a plain deep copy would carry converted values and tags into a manager that collapses before it converts, and a
+    shared object would let one timeframe's collapse rewrite another's candles"""
+    rule = "R-ALIAS"
+    if "method" in want:
+        ci = repo.cls("hexital.core.candle", "Candle")
+        m = ci.methods.get("raw_copy")
+        if m is None:
+            res.fail(rule, finding(prop, rule, ci, ci.node, "Candle.raw_copy (fresh copy with raw values, no tag, no readings) is missing", construct="Candle.raw_copy"))
+        else:
+            body = [st for st in m.node.body if not (isinstance(st, ast.Expr) and isinstance(st.value, ast.Constant))]
+            ok = len(body) >= 5 and isinstance(body[0], ast.Assign) and isinstance(body[0].value, ast.Call) and call_name(body[0].value) == "deepcopy" and ast.unparse(body[0].value.args[0]) == "self"
+            if ok:
+                v = ast.unparse(body[0].targets[0])
+                seq = []
+                for st in body[1:]:
+                    if isinstance(st, ast.Expr) and isinstance(st.value, ast.Call):
+                        seq.append(call_target(st.value))
+                    elif isinstance(st, ast.Assign):
+                        seq.append(ast.unparse(st.targets[0]) + "=" + ast.unparse(st.value))
+                    elif isinstance(st, ast.Return):
+                        seq.append("return " + ast.unparse(st.value))
+                ok = seq == [f"{v}.recover_clean_values", f"{v}.clean_values={{}}", f"{v}.reset_candle", f"return {v}"]
+            if ok:
+                res.ok(rule, {"site": m.where, "raw_copy": "deepcopy -> recover_clean_values -> clean_values = {} -> reset_candle (tag and readings cleared)"}, nontrivial="raw_copy")
+            else:
+                res.fail(rule, finding(prop, rule, m, m.node, "Candle.raw_copy must deep-copy the candle, restore its raw values and clear saved values, tag and readings", construct="Candle.raw_copy body"))
+    if "append" in want:
+        ap = repo.method("hexital.core.candle_manager", "CandleManager", "append")
+        ext = [c for c in calls_in(ap.node) if call_target(c) == "self.candles.extend"]
+        branch = [n for n in ast.walk(ap.node) if isinstance(n, ast.If) and "DEFAULT_CANDLES" in ast.unparse(n.test)]
+        ok = False
+        if len(ext) == 2 and len(branch) == 1:
+            default_first = "==" in ast.unparse(branch[0].test)
+            d_arm, o_arm = (branch[0].body, branch[0].orelse) if default_first else (branch[0].orelse, branch[0].body)
+            o_calls = [c for st in o_arm for c in calls_in(st) if call_target(c) == "self.candles.extend"]
+            d_calls = [c for st in d_arm for c in calls_in(st) if call_target(c) == "self.candles.extend"]
+            ok = len(o_calls) == 1 and len(d_calls) == 1 and _is_raw_copy_comp(o_calls[0].args[0], "candles_") and ast.unparse(d_calls[0].args[0]) == "candles_"
+        if ok:
+            res.ok(rule, {"site": ap.where, "why": "the default manager adopts the candles; every other manager extends with candle.raw_copy() of each"}, nontrivial="append:raw_copy")
+        else:
+            res.fail(rule, finding(prop, rule, ap, ap.node, "a non-default manager must extend its list with candle.raw_copy() of every appended candle (fresh, un-converted copies); the default manager adopts the originals", construct="CandleManager.append: copies for non-default managers"))
+    if "validate" in want:
+        vi = repo.method("hexital.core.hexital", "Hexital", "_validate_indicators")
+        loops = [n for n in vi.node.body if isinstance(n, ast.For)]
+        ctor = [(lp, c) for lp in loops for c in calls_in(lp) if call_name(c) == "CandleManager"]
+        if len(ctor) == 1:
+            c = ctor[0][1]
+            first = c.args[0] if c.args else next((k.value for k in c.keywords if k.arg == "candles"), None)
+            if first is not None and _is_raw_copy_comp(first, "self._candles[DEFAULT_CANDLES].candles"):
+                res.ok(rule, {"site": f"{vi.where} {norm_construct(first)}", "why": "each new timeframe manager gets its own raw copies of the base candles"}, nontrivial="validate:raw_copy")
+            else:
+                res.fail(rule, finding(prop, rule, vi, first if first is not None else c, "a new timeframe manager must be built from [candle.raw_copy() for candle in <base candles>] evaluated for that manager: shared or already converted candles corrupt its buckets"))
+        else:
+            res.fail(rule, finding(prop, rule, vi, vi.node, "the binding loop must create a missing timeframe manager with one CandleManager(...) call", construct="_validate_indicators: CandleManager(...)"))
